@@ -1,5 +1,6 @@
 use vstd::prelude::*;
 use core::cmp::Ordering;
+use vstd::std_specs::iter::IteratorSpec;
 verus! {
 //@include shims/duration.rs
 //@include shims/uuid.rs
@@ -68,5 +69,36 @@ pub proof fn lemma_protected_list_covers_statement()
 //@extract apply_delete_access
 //@extract delete_filter_entry
 //@extract protected_filter_entry
+
+//@include shims/access_resolve.rs
+//@include shims/iter_all.rs
+// ---- delete_related_acp / delete_allow_operation (access/mod.rs): the driver ----
+pub struct DeleteEvent { pub ident: Identity }
+pub struct AcpTxn<'a> { pub delete: Vec<AccessControlDelete>, pub cache: &'a u8 }
+// statement of C24 for delete: "succeeds only if ... granted by an access control profile matching that user and that entry"
+pub open spec fn entry_manager_matches(i: &Identity, e: &EntrySealedCommitted) -> bool {
+    e.refers(Attribute::EntryManagedBy) matches Some(m) && ((i.memberof() matches Some(g) && !g.disjoint(m)) || m.contains(i.uuid()))
+}
+pub open spec fn delete_profile_matches(acp: &AccessControlProfile, ident: &Identity, e: &EntrySealedCommitted) -> bool {
+    &&& (receiver_matches_user(&acp.receiver, ident) || (acp.receiver is EntryManager && entry_manager_matches(ident, e)))
+    &&& (acp.target matches AccessControlTarget::Scope(f) && e.matches_filter(&resolved_filter(f, ident)))
+}
+pub open spec fn delete_stmt_granted(state: Seq<AccessControlDelete>, ident: &Identity, e: &EntrySealedCommitted) -> bool {
+    exists|i: int| 0 <= i < state.len() && delete_profile_matches(&(#[trigger] state[i]).acp, ident, e)
+}
+pub open spec fn related_delete_ok(state: Seq<AccessControlDelete>, ident: &Identity, r: &AccessControlDeleteResolved) -> bool {
+    exists|i: int| 0 <= i < state.len() && *r.acp == #[trigger] state[i] && conditions_resolved(ident, &state[i].acp.receiver, &state[i].acp.target, r.receiver_condition, r.target_condition)
+}
+//@extract related_delete_step
+// `state.iter().filter_map(step).collect::<Vec<_>>()`: every kept element is a Some(..) result of the step on an element of the state
+#[verifier::external_body] pub fn kvx_related_delete<'b>(state: &'b Vec<AccessControlDelete>, ident: &Identity, ident_memberof: Option<&BTreeSet<Uuid>>, cache: &mut ResolveFilterCacheReadTxn<'_>) -> (r: Vec<AccessControlDeleteResolved<'b>>)
+    requires ident_memberof is Some == ident.memberof() is Some, ident_memberof matches Some(m) ==> m@ == ident.memberof()->Some_0
+    ensures forall|k: int| 0 <= k < r@.len() ==> related_delete_ok(state@, ident, &#[trigger] r@[k]) { unimplemented!() }
+impl<'a> AcpTxn<'a> {
+    pub fn get_delete(&self) -> (r: &Vec<AccessControlDelete>) ensures *r == self.delete { &self.delete }
+    #[verifier::external_body] pub fn get_acp_resolve_filter_cache(&self) -> (r: &mut ResolveFilterCacheReadTxn<'a>) { unimplemented!() }
+//@extract delete_related_acp
+//@extract delete_allow_operation
+}
 }
 fn main(){}
